@@ -123,7 +123,7 @@ class Ctx:
     """per-shard context of the header script: the Keeper and the previous case's objects (inequality oracle)"""
 
     def __init__(self, rec, depth=10):
-        self.keeper = Keeper(rec, PROPERTY, depth=depth)
+        self.keeper = Keepers(rec, depth)
         self.prev = None
         self.pending = []
 
@@ -132,17 +132,37 @@ class Ctx:
 
     def end_of_case(self, case):
         """re-observe what the PREVIOUS case was handed (after all library calls of this one), then take over
-        this case's results; the ring holds exactly one case's worth"""
+        this case's results; the rings hold exactly one case's worth"""
         self.keeper.recheck(case)
         for ent in self.pending:
             self.keeper.hold(*ent)
         self.pending = []
 
 
+class Keepers:
+    """two rings: returned buffers are re-observed BEFORE the held objects, because observing an object calls its
+    pack() again - which would refill a buffer shared between calls with the old content and hide the leak"""
+
+    def __init__(self, rec, depth, buf_depth=None):
+        self.buffers = Keeper(rec, PROPERTY, depth=buf_depth or depth)
+        self.objects = Keeper(rec, PROPERTY, depth=depth)
+
+    def hold(self, subject, obj, observe, case):
+        (self.buffers if observe is buf_obs else self.objects).hold(subject, obj, observe, case)
+
+    def recheck(self, case):
+        self.buffers.recheck(case)
+        self.objects.recheck(case)
+
+    def flush(self):
+        self.buffers.flush()
+        self.objects.flush()
+
+
 def check_header(rec: Rec, w0, w1, w2, nontrivial=True, ctx=None, deep=False):
     ctx = ctx or Ctx(rec)
     case = {"kind": "hdr", "w": [w0, w1, w2], "deep": bool(deep)}
-    rec.case(nontrivial, ops=22 + (27 if deep else 0))
+    rec.case(nontrivial, ops=22 + (60 if deep else 0))
     _header_script(rec, case, w0, w1, w2, ctx, deep)
     ctx.end_of_case(case)
 
@@ -155,7 +175,9 @@ def _header_script(rec, case, w0, w1, w2, ctx, deep):
     ref = R.sp_header(*f)
 
     def bad(kind, observed, expected):
-        feats = "/".join(x for x, on in (("ver!=0", ver != 0), ("apid>=0x400", apid >= 0x400), ("cnt>=0x2000", cnt >= 0x2000)) if on)
+        # value-dependent clauses carry the coarse value features; independence / equality clauses do not depend on the value
+        feats = "" if kind.startswith(("independence/", "inverse/equality")) else "/".join(
+            x for x, on in (("ver!=0", ver != 0), ("apid>=0x400", apid >= 0x400), ("cnt>=0x2000", cnt >= 0x2000)) if on)
         rec.violation(f"C01.{kind}" + ("/" + feats if feats else ""), case, observed, expected,
                       repro=f"w0,w1,w2={w0:#x},{w1:#x},{w2:#x}  # see checks/c01.py _header_script")
 
@@ -279,15 +301,19 @@ def _siblings(sp, bad, f):
         ("PacketId.empty", sp.PacketId.empty, pid_obs, (0, 0, 0, 0), lambda s, o, _f: _mutate_pid(s, o, (0,) * 7)),
         ("PacketSeqCtrl.empty", sp.PacketSeqCtrl.empty, psc_obs, (0, 0, 0), lambda s, o, _f: _mutate_psc(s, o, (0,) * 7)),
     ]
-    for name, make, obs, exp, mutate in makers:
+    # all the a's first, then all the mutated b's, then the verdicts: sharing between results of DIFFERENT entry
+    # points (a constructed and a decoded header of the same value) shows as well
+    try:
+        first = [make() for _n, make, _o, _e, _m in makers]
+        for _n, make, _o, _e, mutate in makers:
+            mutate(sp, make(), f)
+    except Exception as e:  # noqa: BLE001
+        return bad("independence/siblings/exception-in-make-mutate", repr(e), None)
+    for (name, make, obs, exp, _m), a in zip(makers, first):
         try:
-            a = make()
-            b = make()
-            mutate(sp, b, f)
-            c = make()
-            oa, oc = obs(a), obs(c)
+            oa, oc = obs(a), obs(make())
         except Exception as e:  # noqa: BLE001
-            bad(f"independence/{name}/exception-in-make-mutate-make", repr(e), None)
+            bad(f"independence/{name}/exception-observing-after-sibling-mutation", repr(e), None)
             continue
         if oa != exp:
             bad(f"independence/{name}/earlier-result-changed-by-assigning-to-a-same-valued-one", oa, exp)
@@ -299,6 +325,25 @@ def _siblings(sp, bad, f):
     _mutate_header(sp, c, f)
     if pid_obs(p) != pexp or psc_obs(q) != qexp:
         bad("independence/from_composite_fields/argument-words-changed-by-assigning-to-the-header", (pid_obs(p), psc_obs(q)), (pexp, qexp))
+    # "=" discriminates every field: flipping the lowest / highest bit of one field gives an unequal header / word
+    h = _mk_header(sp, f)
+    for i, width in enumerate((3, 1, 1, 11, 2, 14, 16)):
+        for bit in {0, width - 1}:
+            g = list(f)
+            g[i] ^= 1 << bit
+            n = _mk_header(sp, g)
+            if (h == n) or (n == h) or not (n == _mk_header(sp, g)):
+                bad("inverse/equality-does-not-discriminate", ("equal although field differs", i, bit), False)
+    p = sp.PacketId.from_raw(pid)
+    for bit in (0, 10, 11, 12):
+        n = sp.PacketId.from_raw(pid ^ (1 << bit))
+        if p == n or n == p or n.raw() != pid ^ (1 << bit):
+            bad("inverse/equality-does-not-discriminate/PacketId", ("equal although bit differs", bit), False)
+    q = sp.PacketSeqCtrl.from_raw(psc)
+    for bit in (0, 13, 14, 15):
+        n = sp.PacketSeqCtrl.from_raw(psc ^ (1 << bit))
+        if q == n or n == q or n.raw() != psc ^ (1 << bit):
+            bad("inverse/equality-does-not-discriminate/PacketSeqCtrl", ("equal although bit differs", bit), False)
 
 
 # -------------------------------------------------------------------------------------------------- refusal clause
@@ -438,15 +483,17 @@ def run_history(rec: Rec, keeper, start, base, events):
     rec.case(True, ops=len(events) + 6)
 
     def bad(what, kind, observed, expected):
-        rec.violation(f"C01.history/{what}/{kind}/start={start}", case, observed, expected,
+        rec.violation(f"C01.history/{what}/{kind}/start={start.split('-')[0]}", case, observed, expected,
                       note="model (ver,typ,shf,apid,flags,count,len) at the failing observation: %r" % (tuple(m),))
 
     # bystander made the same way from the same values before the subject is touched
     twin, _ = _start(sp, start, f0)
-    keeper.hold(f"history-bystander/{start}", twin, hdr_obs, case)
+    keeper.hold(f"history-bystander/{start.split('-')[0]}", twin, hdr_obs, case)
     h, extra = _start(sp, start, f0)
     for name, obj, obs in extra:
         keeper.hold(f"history-argument/{name}", obj, obs, case)
+    # one packet around the subject for the whole history (its pack() is an observer event)
+    pkt = sp.SpacePacket(h, b"\x01\x02", b"\x03")
     m = list(f0)
     for ev in events:
         if ev[0] == "set":
@@ -466,25 +513,28 @@ def run_history(rec: Rec, keeper, start, base, events):
             if o == "pack":
                 r = h.pack()
                 if bytes(r) != ref:
-                    bad("SpacePacketHeader.pack", "octets-mid-history", bytes(r), ref)
+                    bad("SpacePacketHeader.pack", "octets", bytes(r), ref)
                 keeper.hold("history/SpacePacketHeader.pack", r, buf_obs, case)
             elif o == "packet_len":
                 if h.packet_len != dl + 7:
-                    bad("SpacePacketHeader.packet_len", "value-mid-history", h.packet_len, dl + 7)
+                    bad("SpacePacketHeader.packet_len", "value", h.packet_len, dl + 7)
             elif o == "eq":
                 if not (h == _mk_header(sp, m)):
-                    bad("SpacePacketHeader.__eq__", "not-equal-to-fresh-header-of-same-values-mid-history", False, True)
+                    bad("SpacePacketHeader.__eq__", "not-equal-to-fresh-header-of-same-values", False, True)
             elif o == "packet_id.raw":
                 if h.packet_id.raw() != (typ << 12 | shf << 11 | apid):
-                    bad("PacketId.raw", "value-mid-history", h.packet_id.raw(), typ << 12 | shf << 11 | apid)
+                    bad("PacketId.raw+PacketSeqCtrl.raw", "values", h.packet_id.raw(), typ << 12 | shf << 11 | apid)
             elif o == "packet_seq_control.raw":
                 if h.packet_seq_control.raw() != (fl << 14 | cnt):
-                    bad("PacketSeqCtrl.raw", "value-mid-history", h.packet_seq_control.raw(), fl << 14 | cnt)
+                    bad("PacketId.raw+PacketSeqCtrl.raw", "values", h.packet_seq_control.raw(), fl << 14 | cnt)
             elif o == "SpacePacket.pack":
-                sec = b"\x01\x02" if shf else None
-                r = sp.SpacePacket(h, sec, b"\x03").pack()
-                if bytes(r) != ref + (sec or b"") + b"\x03":
-                    bad("SpacePacket.pack", "octets-mid-history", bytes(r), ref + (sec or b"") + b"\x03")
+                # expected from what the packet's own header reports (on this tree pkt.sp_header is the subject)
+                ph = pkt.sp_header
+                pf = (ph.ccsds_version, int(ph.packet_type), int(ph.sec_header_flag), ph.apid, int(ph.seq_flags), ph.seq_count, ph.data_len)
+                exp_raw = R.sp_header(*pf) + (b"\x01\x02" if pf[2] else b"") + b"\x03"
+                r = pkt.pack()
+                if bytes(r) != exp_raw:
+                    bad("SpacePacket.pack", "octets", bytes(r), exp_raw)
                 keeper.hold("history/SpacePacket.pack", r, buf_obs, case)
             elif o == "repr":
                 repr(h)
@@ -513,7 +563,7 @@ def run_history(rec: Rec, keeper, start, base, events):
     if same is not (tuple(m) == f0):
         bad("SpacePacketHeader.__eq__", "does-not-discriminate", same, tuple(m) == f0)
     keeper.hold("history/SpacePacketHeader.pack", out, buf_obs, case)
-    keeper.hold(f"history-subject-at-rest/{start}", h, hdr_obs, case)
+    keeper.hold(f"history-subject-at-rest/{start.split('-')[0]}", h, hdr_obs, case)
     keeper.recheck(case)
     rec.outcome(ref.hex())
 
@@ -595,7 +645,7 @@ def run_shard(item):
         rec.count(f"out_of_range_{field}_constructor_contexts", len(ctors))
         rec.sample({"refuse": field, "first": vals[:3], "count": len(vals), "constructor_contexts": len(ctors)})
     elif kind == "hist":
-        keeper = Keeper(rec, PROPERTY, depth=16)
+        keeper = Keepers(rec, 4, 8)  # objects: bystander, argument words and subject of the current history
         m = menu(item["tier"])
         lo, hi = item["first"]
         n = nev = 0
@@ -624,7 +674,7 @@ def replay(case):
     elif case["kind"] == "range":
         check_range(rec, case["field"], case["ctor"], case["ctx"], int(case["v"]))
     elif case["kind"] == "hist":
-        keeper = Keeper(rec, PROPERTY, depth=16)
+        keeper = Keepers(rec, 4, 8)  # objects: bystander, argument words and subject of the current history
         run_history(rec, keeper, case["start"], case["base"], case["events"])
         keeper.flush()
     return rec.result()
